@@ -11,6 +11,7 @@ package gomatrixserverlib
 // version 6 and the event is refused from version 6 on); room versions 1-9 nevertheless let a
 // power_levels event in the AUTH events carry any int64, so the comparators are judged here
 // directly over the full int64 range: against an oracle computed with math/big, for antisymmetry,
+// (mainline positions and step counts are indices and counts, so they are drawn from 0..MaxInt only),
 // and by sorting every rotation and the reversal of the generated slice with the library's own
 // sort call, which must give one sequence.
 
@@ -39,7 +40,8 @@ type c11OrdCase struct {
 func c11GenOrd(t *rapid.T) c11OrdCase {
 	edges := []int64{math.MinInt64, math.MinInt64 + 1, -(1 << 53), -101, -1, 0, 1, 50, 100, 1 << 31, 1 << 32, 1 << 53, math.MaxInt64 - 1, math.MaxInt64}
 	power := rapid.OneOf(rapid.SampledFrom(edges), rapid.Int64Range(-3, 3), rapid.Int64())
-	ints := rapid.OneOf(rapid.SampledFrom([]int{math.MinInt, -1, 0, 1, 2, math.MaxInt}), rapid.IntRange(0, 3))
+	// mainline positions and step counts are list indices and counts: never negative
+	ints := rapid.OneOf(rapid.SampledFrom([]int{0, 1, 2, 1 << 20, math.MaxInt}), rapid.IntRange(0, 3))
 	ts := rapid.OneOf(rapid.SampledFrom([]uint64{0, 1, 2, math.MaxInt64, math.MaxInt64 + 1, math.MaxUint64}), rapid.Uint64Range(0, 3))
 	n := rapid.IntRange(2, 9).Draw(t, "n")
 	var c c11OrdCase
@@ -105,6 +107,12 @@ func c11CheckOrd(ctx *vfCtx, c c11OrdCase) {
 	for i, e := range c.Entries {
 		pl[i] = &stateResV2ConflictedPowerLevel{powerLevel: e.Power, originServerTS: spec.Timestamp(e.TS), eventID: e.ID}
 		ot[i] = &stateResV2ConflictedOther{mainlinePosition: e.Pos, mainlineSteps: e.Steps, originServerTS: spec.Timestamp(e.TS), eventID: e.ID}
+	}
+	for _, e := range c.Entries {
+		if e.Pos < 0 || e.Steps < 0 {
+			ctx.Unjudged("negative mainline position or step count: not something the resolver computes")
+			return
+		}
 	}
 	far := false
 	for i := 0; i < n; i++ {
